@@ -449,7 +449,10 @@ YR_API int yr_rules_save(YR_RULES* rules, const char* filename)
 
   result = yr_rules_save_stream(rules, &stream);
 
-  fclose(fh);
+  // Writes are buffered, an error (e.g. disk full) may surface only now.
+  if (fclose(fh) != 0 && result == ERROR_SUCCESS)
+    result = ERROR_WRITING_FILE;
+
   return result;
 }
 
